@@ -142,6 +142,20 @@ impl<TX: Clone> Recv<TX> {
             ));
         }
 
+        // The final size is also the largest offset the peer will ever send on this stream:
+        // it is subject to the advertised stream data limit like any other data (RFC 9000 §4.1).
+        if final_size > self.max_stream_data {
+            return Err(QuicError::new(
+                ErrorKind::FlowControl,
+                stream_frame.frame_type().into(),
+                format!(
+                    "{} send final size {final_size} which exceeds the stream data limit {}",
+                    stream_frame.stream_id(),
+                    self.max_stream_data
+                ),
+            ));
+        }
+
         qevent::event!(StreamStateUpdated {
             stream_id: self.stream_id.id(),
             stream_type: self.stream_id.dir(),
